@@ -379,6 +379,18 @@ pub fn gen(id: &str, r: &mut Rng, out: &mut Vec<Case>) {
                         _ => out.push(case("fused_multiply_add", mode_tok(r), fl, vec![d(z), d(inf), d(operand(r))])),
                     }
                 }
+                9 => { // the operator, compound-assignment and fold forms with a NaN operand (the trait glue of d128.rs; added after
+                       // seeded change C12-5 rewrote `-=` as `+= -rhs`, which flips the sign of a NaN right-hand side)
+                    if r.chance(1, 5) {
+                        let mut v: Vec<u128> = (0..(2 + r.below(3))).map(|_| operand(r)).collect(); let p = r.below(v.len() as u64) as usize; v[p] = n;
+                        out.push(case(*r.pick(&["sum", "product", "sum_ref", "product_ref"]), '-', fl, v.into_iter().map(d).collect()));
+                    } else {
+                        let op = *r.pick(&["op_add", "op_sub", "op_mul", "op_div", "op_rem", "op_add_ref", "op_sub_ref", "op_mul_ref", "op_div_ref", "op_rem_ref",
+                                           "op_add_assign", "op_sub_assign", "op_mul_assign", "op_div_assign", "op_rem_assign",
+                                           "op_add_assign_ref", "op_sub_assign_ref", "op_mul_assign_ref", "op_div_assign_ref", "op_rem_assign_ref"]);
+                        out.push(case(op, '-', fl, vec![d(a), d(b)]));
+                    }
+                }
                 _ => { let (x, y) = (nan(r), nan(r));
                        let op = *r.pick(&["addition", "multiplication", "division", "subtraction"]);
                        out.push(case(op, mode_tok(r), fl, vec![d(x), d(y)])); }
